@@ -25,6 +25,7 @@ HARNESS = os.path.join(ROOT, 'harness')
 REPO = os.environ.get('VERIF_REPO', '/repo')
 PY = os.path.join(ROOT, '.venv', 'bin', 'python')
 JOBS = int(os.environ.get('VERIF_JOBS', '16'))
+OUT = os.environ.get('VERIF_OUT', ROOT)      # evidence/ and replays/ go here (mutant evaluation runs redirect it)
 
 
 class Cond(object):
@@ -286,7 +287,7 @@ def main(argv=None):
         if a.replay:
             return do_replay_file(mod, a.replay, scratch, pid)
         conds = mod.conditions(tier, seed)
-        shutil.rmtree(os.path.join(ROOT, 'replays', pid), ignore_errors=True)
+        shutil.rmtree(os.path.join(OUT, 'replays', pid), ignore_errors=True)
         if a.only:
             conds = [c for c in conds if re.search(a.only, c.name)]
         results = []
@@ -346,9 +347,9 @@ def do_replay_file(mod, path, scratch, pid):
 
 
 def report(mod, pid, tier, seed, results, funcs, scratch, wall):
-    evid_dir = os.path.join(ROOT, 'evidence')
+    evid_dir = os.path.join(OUT, 'evidence')
     os.makedirs(evid_dir, exist_ok=True)
-    rep_dir = os.path.join(ROOT, 'replays', pid)
+    rep_dir = os.path.join(OUT, 'replays', pid)
     violations = []
     harness_errors = []
     inconclusive = []
